@@ -2,7 +2,7 @@
 """Validate monitors against breaking patches.
 
   tools/selftest.py <patch> <Cxx> [--tier quick] [--seed N] [--keep]
-  tools/selftest.py --all [--only Cxx] [--shard i/n] [--out f.json]   (every /verif/mutants/*.patch and /verif/seeded/*/patch.diff, per its meta)
+  tools/selftest.py --all [--only Cxx] [--names a,b,..] [--shard i/n] [--out f.json]   (every /verif/mutants/*.patch and /verif/seeded/*/patch.diff, per its meta)
 
 Copies nothing into /repo: makes a git worktree of /repo's HEAD under
 /tmp/scratch/selftest-repo, applies the patch there, mirrors /verif/harness to
@@ -137,6 +137,10 @@ def main():
                 items.append((os.path.join(d, "patch.diff"), m["property"]))
         only = None
         if "--only" in a: only = a[a.index("--only") + 1].upper()
+        # --names a,b,c : only the patches whose path contains one of these (mutant file stem or seeded directory name)
+        if "--names" in a:
+            names = [x for x in a[a.index("--names") + 1].split(",") if x]
+            items = [(f, pid) for f, pid in items if any(("/" + n + ".patch") in f or ("/" + n + "/patch.diff") in f for n in names)]
         shard = (0, 1)
         if "--shard" in a:
             i, n = a[a.index("--shard") + 1].split("/"); shard = (int(i), int(n))
